@@ -44,8 +44,19 @@ FOREIGN_UNIQUE = [('g', 1, [('x', 's', 'Double')]), ('h', 3, [('u', '', 'Int64')
 MUTATORS = ('append_', 'create_', 'delete_dims', 's_', 't_', 'r_ticks ', 'r_label', 'r_unit', 'a_', 'reopen', 'recreate', 'drop_b2')
 
 
+ROUTED = ('s_', 't_', 'r_', 'f_q', 'f_ticks')      # calls that address one descriptor: the handle can come by several routes
+ROUTES = {'via1': 'X::operator=(const Dimension&)', 'via2': 'DataArray::dimensions(filter) -> as<X>Dimension()',
+          'via3': 'Dimension(const X&) + Dimension::operator=(const X&) + X::operator=(const X&)',
+          '': 'getDimension(i).as<X>Dimension()'}
+
+
+def strip_route(line):
+    return line[5:] if line.startswith('via') and line[4:5] == ' ' else line
+
+
 def is_mutator(line):
-    return line.startswith(MUTATORS)
+    line = strip_route(line)
+    return line.startswith(MUTATORS) and not line.startswith(('r_at', 'r_tickat', 'r_ticks_sc', 'r_axis', 's_at'))
 
 
 class Gen:
@@ -139,6 +150,8 @@ class Gen:
 
     # ---- emitting ----
     def emit(self, line):
+        if line.startswith(ROUTED) and self.r.random() < 0.35:
+            line = self.r.choice(['via1', 'via2', 'via3']) + ' ' + line
         self.lines.append(line)
         if is_mutator(line):
             self.lines.append('observe')
@@ -276,8 +289,9 @@ class Gen:
             i = self.idx('RA')
             f = r.choice(['ticks', 'ticks', 'label', 'unit'])
             if f == 'ticks':
-                alias_int = (1 <= i <= len(self.kinds) and self.kinds[i - 1] == 'A' and self.dtype in INTS) or \
-                            (self.dtype in INTS and 'A' in self.kinds)
+                # NaN through an alias into an integer array is a C cast of NaN (excluded domain); the picture of the
+                # descriptors is only rough, so: no NaN ticks at all on 1-D integer arrays
+                alias_int = self.dtype in INTS and self.rank == 1
                 t = self.ticks(allow_nan=not alias_int)
                 self.emit('r_ticks %d%s' % (i, ''.join(' ' + dd(x) for x in t)))
             elif f == 'label':
@@ -287,7 +301,7 @@ class Gen:
 
     def query(self):
         r = self.r
-        q = r.choice(['count', 'get', 'dims', 'tickat', 'ticks_sc', 'axis', 'fq', 'fq'])
+        q = r.choice(['count', 'get', 'dims', 'tickat', 'ticks_sc', 'axis', 'fq', 'fq', 's_at', 'r_at', 'dims_f', 'roa', 'f_ticks', 'f_ticks'])
         n = len(self.kinds)
         big = r.choice([0xffffffffffffffff, 0xfffffffffffffffe, 1 << 63, 1 << 32])
         if q == 'count':
@@ -296,6 +310,16 @@ class Gen:
             self.emit('get %d' % r.choice([0, 1, n, n + 1, big, max(1, n // 2)]))
         elif q == 'dims':
             self.emit('dims')
+        elif q == 's_at':
+            self.emit('s_at %d %d' % (self.idx('S'), r.choice([0, 1, 2, 3, 7, 1000, 1 << 53, big])))
+        elif q == 'r_at':
+            self.emit('r_at %d %d' % (self.idx('RA'), r.choice([0, 1, 2, 3, 4, 5, big])))
+        elif q == 'dims_f':
+            self.emit('dims_f %s' % r.choice('STRF'))
+        elif q == 'roa':
+            self.emit('range_of_array')
+        elif q == 'f_ticks':
+            self.f_ticks()
         elif q == 'tickat':
             self.emit('r_tickat %d %d' % (self.idx('RA'), r.choice([0, 1, 2, 3, 4, 5, 6, big])))
         elif q == 'ticks_sc':
@@ -304,6 +328,15 @@ class Gen:
             self.emit('r_axis %d %d %d' % (self.idx('RA'), r.choice([0, 1, 2, 3, 6, 1000]), r.choice([0, 0, 1, 2, 5, big])))
         else:
             self.emit('f_q %d %s %s' % (self.idx('F'), r.choice(['label', 'unit', 'type']), r.choice(['-', '-', '0', '1', '2', '3', '4', '9'])))
+
+    def f_ticks(self):
+        """DataFrameDimension::ticks<T>: default / explicit / missing column, resize on and off, vector sizes and offsets
+        around the number of rows (frames have at most 5 rows)"""
+        r = self.r
+        resize = r.choice([0, 1])
+        off = r.choice([0, 0, 1, 2, 3, 5, 6]) if not resize else r.choice([0, 0, 1, 2, 3, 5, 6, 0xffffffffffffffff])
+        self.emit('f_ticks %d %s %d %d %d' % (self.idx('F'), r.choice(['-', '-', '0', '1', '2', '3', '4']), resize,
+                                             r.choice([0, 1, 2, 3, 6]), off))
 
     def array_write(self):
         r = self.r
@@ -462,8 +495,10 @@ def history(rnd, flavour):
                 g.append('df')
             elif x < 0.56:
                 g.recreate()
-            elif x < 0.9:
+            elif x < 0.75:
                 g.emit('f_q %d %s %s' % (g.idx('F'), rnd.choice(['label', 'unit', 'type']), rnd.choice(['-', '-', '0', '1', '2', '3', '4'])))
+            elif x < 0.9:
+                g.f_ticks()
             else:
                 g.append(rnd.choice(['set', 'sampled']))
     else:   # mixed
@@ -523,6 +558,21 @@ def directed():
                    'r_label 1 %s' % hx('tl'), 'observe', 'r_unit 1 %s' % hx('s'), 'observe', 'a_unit %s' % hx('spikes'), 'observe',
                    'r_unit 1 none', 'observe', 'r_tickat 1 1', 'r_ticks_sc 1 0 2', 'r_axis 1 1 1', 'reopen ro', 'observe',
                    'delete_dims', 'reopen rw', 'delete_dims', 'observe', 'a_unit %s' % hx('spikes'), 'append_alias', 'observe'], 'directed'))
+    # a column index equal to the number of columns; ticks<T> with resize = false
+    c.append(Case([HDR, 'append_df_idx 0 2', 'observe'], 'directed'))
+    c.append(Case([HDR, 'append_df_idx 0 1', 'f_ticks 1 - 0 1 0', 'f_ticks 1 - 1 0 0'], 'directed'))
+    # every route to the same descriptor, every kind; operator[]; dimensions(filter); RangeDimension(const DataArray&)
+    c.append(Case([HDR, 'append_sampled %s %s %s %s' % (dd(0.1), E, E, dd(-2.5)), 'append_range %s %s %s %s' % (E, E, dd(1.0), dd(2.0)),
+                   'append_set 1 %s' % hx('a'), 'append_df_idx 0 1', 'append_df 0',
+                   'via1 s_label 1 %s' % hx('x'), 'observe', 'via2 s_unit 1 %s' % hx('ms'), 'observe', 'via3 s_interval 1 %s' % dd(2.0), 'observe',
+                   'via1 r_ticks 2 %s %s' % (dd(3.0), dd(4.0)), 'observe', 'via2 r_label 2 %s' % hx('rl'), 'observe', 'via3 r_unit 2 %s' % hx('mV'), 'observe',
+                   'via1 t_labels 3 1 %s' % hx('q'), 'observe', 'via2 t_label 3 %s' % hx('c'), 'observe', 'via3 t_labels 3 none', 'observe',
+                   'via1 f_q 4 label -', 'via2 f_q 4 unit -', 'via3 f_q 4 type -', 'via1 f_ticks 4 - 1 0 0', 'via2 f_ticks 4 0 1 0 1', 'via3 f_ticks 5 1 1 0 2',
+                   'via1 s_label 2 %s' % hx('x'), 'via2 r_label 3 %s' % hx('x'), 'via3 t_label 1 %s' % hx('x'), 'via1 s_label 9 %s' % hx('x'),
+                   'via2 s_label 9 %s' % hx('x'), 'via3 s_label 9 %s' % hx('x'),
+                   's_at 1 0', 's_at 1 3', 'via1 s_at 1 7', 's_at 2 0', 'r_at 2 0', 'via3 r_at 2 1', 'r_at 2 2', 'r_at 1 0',
+                   'dims_f S', 'dims_f T', 'dims_f R', 'dims_f F', 'range_of_array'], 'directed'))
+    c.append(Case([HDR.replace('Double 1 3', 'Double 2 3', 1), 'range_of_array', 'dims_f R'], 'directed'))
     # frame handles that are not frames of the array's block, all three overloads, then further appends and a reopen:
     # (a) another block's frame with a name of its own, (b) another block's frame with the NAME of a local frame,
     # (c) the stale handle of a deleted-and-recreated local frame, (d) a frame whose block was deleted
@@ -577,13 +627,33 @@ class C13(Prop):
                   'sortedness invariant is stated for non-alias range dimensions.')
     nontrivial_rule = ('a case is one history on a fresh file (element type, rank 1..3, 1-2 data frames); it counts as '
                        'non-trivial when the model accepted at least one mutating dimension call; distinct = distinct script text')
-    assumptions = ['HDF5 1.10.8 behaves as modelled for groups, attributes, datasets and type conversion (re-checked by every run)',
+    assumptions = ['DataFrameDimension::ticks<T> ignores its resize argument (documentation says otherwise); modelled as implemented',
+                   'HDF5 1.10.8 behaves as modelled for groups, attributes, datasets and type conversion (re-checked by every run)',
                    'util::isSIUnit / isCompoundSIUnit / deblankString as modelled in Units/UnitsModel.v over the generated tables']
     trusted_base = ['coq/Store/Dims.v is a faithful reading of the dimension code paths (checked line by line against the '
                     'implementation on every generated history)']
 
     def canon(self, line):
         return line.replace('nix::hdf5::H5Exception', 'nix::hdf5::H5Error')
+
+    def extra_checks(self, ctx):
+        """which public routes the generated requests take, and how many lines each got (into the evidence)"""
+        cases = self.generate(ctx['seed'], ctx['tier'], 1)
+        routes, entry = {}, {}
+        for c in cases:
+            for l in c.lines:
+                r = l[:4] if l.startswith('via') else ''
+                body = strip_route(l)
+                if body.startswith(ROUTED):
+                    routes[ROUTES[r]] = routes.get(ROUTES[r], 0) + 1
+                op = body.split(' ')[0]
+                entry[op] = entry.get(op, 0) + 1
+        names = {'s_at': 'SampledDimension::operator[]', 'r_at': 'RangeDimension::operator[]', 'dims_f': 'DataArray::dimensions(filter)',
+                 'range_of_array': 'RangeDimension(const DataArray&)', 'f_ticks': 'DataFrameDimension::ticks<T>(vector&, col, resize, offset)',
+                 'dims': 'DataArray::dimensions()', 'get': 'DataArray::getDimension', 'count': 'DataArray::dimensionCount'}
+        ctx['ev']['descriptor_handle_routes'] = routes
+        ctx['ev']['entry_points'] = {names.get(k, k): v for k, v in sorted(entry.items())}
+        return []
 
     def nontrivial(self, case, model_lines):
         return any(is_mutator(l) and not l.startswith('reopen') and m.startswith('OK')
@@ -604,7 +674,7 @@ class C13(Prop):
 
     def signature(self, case, impl, spec):
         k = self.first_diff(impl, spec)
-        line = case.lines[k]
+        line = strip_route(case.lines[k])
         t = line.split(' ')
         op = t[0]
         a, b = impl[k], spec[k]
@@ -617,7 +687,7 @@ class C13(Prop):
             return any(x != x for x in v)
 
         if op == 'observe' and k > 0:
-            pt = case.lines[k - 1].split(' ')
+            pt = strip_route(case.lines[k - 1]).split(' ')
             pop, pa = pt[0], impl[k - 1]
             if pop in ('append_range', 'append_sampled') and 'InvalidUnit' in pa:
                 return {'kind': 'invalid-unit-leaves-descriptor'}
@@ -641,6 +711,8 @@ class C13(Prop):
             return {'kind': 'nan-interval-accepted' if x != x else 'nonpositive-interval-accepted', 'op': 's_interval'}
         if acc and op == 'r_ticks':
             return {'kind': 'nan-ticks-accepted', 'op': 'r_ticks'}
+        if acc and op == 'append_df_idx':
+            return {'kind': 'frame-column-equal-to-count-accepted', 'op': op}
         if acc and op == 'delete_dims':
             return {'kind': 'readonly-delete-reports-success', 'op': op}
         return {'kind': 'wrong-answer', 'op': op, 'refused': a.startswith('ERR'), 'spec_refuses': b.startswith('ERR')}
